@@ -397,6 +397,54 @@ func c07RowChunks(tier string) []SeqChunk {
 			}})
 		}
 	}
+	// the library's own replacement fillers: a message shown instead of the bar once it has completed / was aborted
+	chunks = append(chunks, SeqChunk{Name: "c07-row-message-fillers", Gen: func(env *SeqEnv) {
+		msgs := []string{"", "done", "all 3 files were downloaded and verified", "完了しました全部のファイル", strings.Repeat("x", 100)}
+		for _, w := range widths {
+			for mi, msg := range msgs {
+				for _, how := range []string{"complete", "abort"} {
+					for _, trim := range []bool{false, true} {
+						for _, withDecor := range []bool{false, true} {
+							id := fmt.Sprintf("row w=%d message-filler on-%s msg=%d trim=%v decor=%v", w, how, mi, trim, withDecor)
+							env.Case(id, func() (string, bool, string, string) {
+								out := &rowRec{}
+								mrc := make(chan interface{})
+								p := mpb.New(mpb.WithOutput(out), mpb.WithWidth(w), mpb.WithManualRefresh(mrc))
+								opts := []mpb.BarOption{mpb.BarFillerOnComplete(msg), mpb.BarFillerOnAbort(msg)}
+								if trim {
+									opts = append(opts, mpb.BarFillerTrim())
+								}
+								if withDecor {
+									opts = append(opts, mpb.PrependDecorators(decor.Name("job")), mpb.AppendDecorators(decor.Percentage()))
+								}
+								b := p.AddBar(3, opts...)
+								if how == "complete" {
+									b.IncrBy(3)
+								} else {
+									b.Abort(false)
+								}
+								mrc <- time.Now()
+								mrc <- time.Now()
+								p.Write(nil)
+								p.Shutdown()
+								if len(out.writes) == 0 {
+									return "", false, "no-frame", "no frame was written"
+								}
+								line := strings.TrimSuffix(out.writes[0], "\n")
+								if strings.Contains(line, "\n") {
+									return line, true, "row-multiline", fmt.Sprintf("%+q", line)
+								}
+								if dw := dispWidth(line); dw > w {
+									return line, true, "message-filler-overflow", fmt.Sprintf("the row of a bar that was %sd is %d columns wide on a %d column terminal: %+q", how, dw, w, line)
+								}
+								return line, true, "", ""
+							})
+						}
+					}
+				}
+			}
+		}
+	}})
 	// built-in decorators report the display width of what they return
 	chunks = append(chunks, SeqChunk{Name: "c07-decor-width", Gen: func(env *SeqEnv) {
 		red := func(s string) string { return "\x1b[1;31m" + s + "\x1b[0m" }
